@@ -473,6 +473,7 @@ def gen_config(rng, tbl, max_ctx=4, max_tests=3, window_layout=None, fault_kinds
         "window_form": rng.pick(WINDOW_FORMS) if carrier in ("dict", "odict") else "iso",
         "carrier": carrier,
         "layout": "streams" if len(contexts) == 1 and rng.chance(0.4) else "contexts",
+        "share_document": rng.chance(0.3),
     }
 
 
